@@ -674,21 +674,20 @@ fn range<'s>(input: &mut &'s str) -> PResult<Vec<BoundSet>, SemverParseError<&'s
     Parser::map(
         separated(0.., simple, space1),
         |bs: Vec<Option<BoundSet>>| {
-            bs.into_iter()
-                .flatten()
-                .fold(Vec::new(), |mut acc: Vec<BoundSet>, bs| {
-                    if let Some(last) = acc.pop() {
-                        if let Some(bound) = last.intersect(&bs) {
-                            acc.push(bound);
-                        } else {
-                            acc.push(last);
-                            acc.push(bs);
-                        }
-                    } else {
-                        acc.push(bs)
-                    }
-                    acc
-                })
+            // Comparators joined by whitespace must all hold: intersect them.
+            // If two of them exclude each other the whole set admits nothing.
+            let mut sets = bs.into_iter().flatten();
+            let mut acc = match sets.next() {
+                Some(first) => first,
+                None => return Vec::new(),
+            };
+            for bs in sets {
+                match acc.intersect(&bs) {
+                    Some(bound) => acc = bound,
+                    None => return Vec::new(),
+                }
+            }
+            vec![acc]
         },
     )
     .parse_next(input)
